@@ -186,6 +186,62 @@ def run(tier, seed, replay):
             rep.violation("a Go function is not interchangeable with the equivalent jq definition: %r on %s: callback gives %s err=%s, definition gives %s err=%s" % (
                 c["src"], evalfam.show(c["input"]), [jqgen.unV(v) for v in x["out"]], ex, [jqgen.unV(v) for v in run_["out"]], ey), {"family": "caps", "case": c, "actual": x, "expected": run_})
         rep.cov["custom_function_cases_agreeing"] = agree
+        # ---------------- option values are descriptions: reusing one value in several compilations changes nothing
+        ucases = []
+        optpool = [["func", 0, 0, "A"], ["func", 1, 1, "B"], ["func", 0, 0, "C"], ["func", 0, 2, "D"], ["func", 2, 3, "E"], ["iter", 0, 2, "I"], ["iter", 2, 3, "J"], ["iter", 0, 0, "K"], ["vars", 0, 0, "v"], ["env", 0, 0, "e"]]
+        srcs = ["[cf, cf(1)]", "cf", "cf(1)", "[cf(1; 2)]", "[cfi]", "[cfi(1; 2)]", "[cfi(1; 2; 3)]", "builtins | map(select(startswith(\"cf\"))) | sort", "[cf?, cfi?]", "try cf(1; 2; 3) catch \"e\"", "$v", "env.K", "[cf, $v, env.K]"]
+        for _ in range(150 if quick else 4000):
+            opts = r.sample(optpool, r.randrange(2, 6))
+            steps = []
+            for _ in range(r.randrange(2, 5)):
+                use = sorted(r.sample(range(len(opts)), r.randrange(1, len(opts) + 1)), key=lambda _: r.random())
+                steps.append({"src": r.choice(srcs), "use": use})
+            ucases.append({"id": len(ucases), "k": "reuse", "opts": opts, "steps": steps, "input": r.choice(uni)})
+        for c, x in zip(ucases, vc.run_restartable([vh, "caps"], ucases, work, "reuse")):
+            rep.count("evaluations")
+            if x.get("panic") or "shared" not in x:
+                rep.violation("panic/hang compiling with reused option values: %s" % (x.get("panic") or "no result"), {"family": "caps", "case": c, "actual": x})
+                continue
+            bad = [i for i, (a, b) in enumerate(zip(x["shared"], x["fresh"])) if {k: v for k, v in a.items() if k not in ("cerr", "perr")} != {k: v for k, v in b.items() if k not in ("cerr", "perr")} or ("cerr" in a) != ("cerr" in b)]
+            if bad:
+                i = bad[0]
+                rep.violation("a compile option value behaves differently after it was used by an earlier compilation: step %d (%r with options %s of %s): reused values give %s, fresh values give %s" % (
+                    i + 1, c["steps"][i]["src"], c["steps"][i]["use"], c["opts"], json.dumps(x["shared"][i])[:200], json.dumps(x["fresh"][i])[:200]), {"family": "caps", "case": c, "actual": x["shared"], "expected": x["fresh"]})
+            else:
+                rep.count("traces_validated_against_impl")
+                rep.nontrivial(["reuse", c["opts"], c["steps"]])
+        # ---------------- the output is a function of the query and the input alone: not of what the same code ran before
+        hcases = []
+        coll = [(["xa", "ai", None], ["A", "a", "i"]), (["A", "a", "i"], ["xa", "ai", None]), (["xag", "ag", None], ["aXa", "a", "g"]), (["b", "b", "gi"], ["big", "bgi", None]), (["ab", "a", ""], ["ab", "", "a"]),
+                (["hello log", "log", None], ["hello lo", "lo", "g"]), (["x", "", "x"], ["x", "x", None]), (["aib", "a", "i"], ["aib", "ai", None]), (["abbb", "b+", "gx"], ["abbb", "b+", "g"]), (["Bb", "b+", "xi"], ["Bb", "b+", "gi"])]
+        hprogs = ['. as [$s, $re, $flags] | $s | try test($re; $flags) catch "err"', '. as [$s, $re, $flags] | $s | try [match($re; $flags).string] catch "err"', '. as [$s, $re, $flags] | $s | try gsub($re; "-") catch "err"',
+                  '. as [$s, $re, $flags] | $s | try [scan($re)] catch "err"', '. as [$s, $re, $flags] | $s | try sub($re; "-"; $flags) catch "err"', '. as [$s, $re, $flags] | $s | try [splits($re; $flags)] catch "err"',
+                  '. as [$s, $re, $flags] | [$s | test($re; $flags)?, test($re)?]']
+        for p in hprogs:
+            for a, b in coll:
+                hcases.append({"id": len(hcases), "k": "history", "src": p, "input": jqgen.V(a), "other": jqgen.V(b)})
+        for c in r.sample(cor, 60 if quick else len(cor)) if False else []:
+            pass
+        names2 = [n for n in json.loads(vc.sh([gojq, "-nc", "builtins"]).stdout) if n.rsplit("/", 1)[0] not in EXCEPT]
+        for _ in range(200 if quick else 5000):
+            n, ar = r.choice(names2).rsplit("/", 1)
+            src = ".[0] as $x | .[1] as $a | $x | try " + n + ("(" + "; ".join(["$a"] * int(ar)) + ")" if int(ar) else "") + ' catch "err"'
+            hcases.append({"id": len(hcases), "k": "history", "src": src, "input": {"t": "arr", "a": [r.choice(uni), r.choice(uni)]}, "other": {"t": "arr", "a": [r.choice(uni), r.choice(uni)]}})
+        for c, x in zip(hcases, vc.run_restartable([vh, "caps"], hcases, work, "hist")):
+            rep.count("evaluations")
+            runs = x.get("runs")
+            if not runs or any(u.get("long") for u in runs):
+                rep.count("out_of_model")
+                continue
+            key = lambda u: json.dumps({k: u.get(k) for k in ("out", "panic")}, sort_keys=True) + str((u.get("err") or {}).get("k"))
+            on_input = [key(u) for u in runs if u["on"] in ("input", "fresh-code")]
+            if len(set(on_input)) > 1:
+                rep.violation("the output of %r on %s depends on what the same compiled query ran before (other input %s): %s" % (
+                    c["src"], evalfam.show(c["input"]), evalfam.show(c["other"]), [json.dumps(u.get("out"))[:80] + " " + str((u.get("err") or {}).get("k")) for u in runs if u["on"] in ("input", "fresh-code")]),
+                    {"family": "caps", "case": c, "actual": runs})
+            else:
+                rep.count("traces_validated_against_impl")
+                rep.nontrivial(["history", c["src"], c["input"], c["other"]])
         # the definition runs against the specification
         counters = evalfam.check_cases(rep, work, vh, prelude, dcases, tag="defspec", timeout=1500, per_shard_min=20)
         rep.cov["definition_verdicts_vs_spec"] = counters
